@@ -145,6 +145,7 @@ def generate(seed, index, tier):
         case["spec2"] = _obj_spec(ch, ch.choice(["Rect", "Circle", "Polygon", "Path", "SimpleLine"]))
     elif deriv in ("add_str", "radd_str"):
         case["str2"] = gp.render(gp.gen_cmds(ch, ch.int(1, 3), mag=100.0, leading_move=deriv == "radd_str", allow_zc=False, arc_zero=False), 0)
+    case["twice"] = bool(deriv in INDEPENDENT and ch.coin(0.25))
     nm = ch.int(1, 6)
     ms = []
     bkind = result_kind(kind, deriv)
@@ -889,6 +890,19 @@ def execute(case, se, out, trace):
             if r:
                 raise V("value", [kind, deriv, key], "Path(x).%s differs from x's: %s" % (key, r))
     b_roots = [y]
+    y2 = None
+    if case.get("twice"):
+        # the same derivation asked for again: the two results are independent of each other as well
+        try:
+            y2, _ = derive(se, case, x, x2)
+        except Exception:
+            y2 = None
+        if y2 is not None:
+            if y2 is y:
+                raise V("operand-returned", [kind, deriv, "twice"], "%s of %s handed out the same object twice" % (deriv, kind))
+            a_roots = a_roots + [y2]
+            frozen = _copy.deepcopy(a_roots)
+            out.count("probe:derived-twice")
     if isinstance(y, (se.Point, se.Matrix, se.Length, se.Color, se.PathSegment, se.SVGElement, se.Subpath)) and any(y is r_ for r_ in a_roots):
         raise V("operand-returned", [kind, deriv], "%s of %s handed back one of its operands (the same object): a later in-place operation on the result rewrites the operand" % (deriv, kind))
     if deriv not in INDEPENDENT:
